@@ -5,6 +5,12 @@ V = os.path.dirname(os.path.dirname(os.path.abspath(__file__)))
 CLAIMS = {
  "C01": ("Decides, for all inputs at once and in exact arithmetic, that each of the 18 backend kernels (Numba, NumPy, CUDA incl. device code no test here can run) computes the windowed-DFT statistics of the property (sample form, trend, transform convention incl. sign of Im, mean/scatter reduction, every K regime), that the CUDA launch grid covers all segments, the detrend basis is degrees 0..order of one variable and the data path stays double precision. Does not decide floating-point rounding.",
          "abstract interpretation of the kernels to algebraic normal forms (sums with binders, unit phasors) + structural lemmas L1/L2/L17"),
+ "C02": ("Decides, on every path of each scheduler's decision tree (branch conditions opaque), that K, navg and the number of generated starts are one value, that K = min(nearest(1+(N-L)/((1-olap)L)), N-L+1) of the stored L (pigeonhole cap), that K=1 implies L=N (the single-segment test was made on the very L that is stored), that starts are nearest(t(N-L)/(K-1)) resp. [0], that no zero-initialised loop variable divides before assignment; and in the analyzer that a bounds check on the very (starts, L, N) dominates every kernel call and plan() rejects malformed scheduler output. Declines max(1,Lmin)<=L<=N and totality over all configurations (interval reasoning over floats). One recorded finding (new_ltf_plan bmin branch).",
+         "path enumeration by abstract interpretation (loop bodies summarised once) + normal-form identities per path + dominance of assumed guards"),
+ "C03": ("Decides on every path: stored r times stored L = fs, next f = f + r, b = f/r (m = b), first f = bmin*fs/N, loop continues only while f < fs/2 and stores the tested f, the bmin cap tests the resolution actually selected, lpsd_plan = ltf_plan with bmin:=1, Lmin:=1. Declines strict monotonicity and the quantitative 'not below bmin by more than the rounding of L' bound. One recorded finding (new_ltf_plan bmin branch: r*L != fs).",
+         "path enumeration by abstract interpretation + normal-form identities per path"),
+ "C04": ("Decides per path the count formula with nearest-integer rounding and cap, the start generator, the reported overlap (closed form or literal mean), the log-spacing constants by value and the three-way resolution compromise (observed through the stored L and its tests), that an explicitly requested overlap is used as given, and that a forced bin count yields exactly that count or an error (search returns only under nf==target; plan() raises on None and uses the solved Jdes). Declines monotonicity of L and K, K>=Kdes where attainable and the 10% agreement between schedulers (numeric).",
+         "path enumeration by abstract interpretation + guarded-return analysis of the Jdes search"),
  "C05": ("Decides the wiring between plan, window, kernel and result for every abstract configuration (72 dispatch configurations x argument roles, end-to-end assembly of compute(), band mask over every per-bin field and D, cache-key completeness, single-bin segmentation and fields). Kernel arithmetic itself is C01's; numerical equality of the estimate is declined.",
          "partial evaluation of the dispatchers / plan() / compute() by abstract interpretation; def-use slicing for memo keys"),
  "C06": ("Decides the calibration formulas (2/(fs*S2), ENBW=fs*S2/S1^2, ps, cs) and the three scaling laws as homogeneity degrees of every table cell's normal form. Declines the sinusoid identity ps=A^2/2 (numeric leakage).",
